@@ -24,7 +24,8 @@
 EXTENDS BebopWire
 
 NL == "\n"
-SB == "~"
+SB == "~"     \* soft break: nothing/space, a line break, or a blank line
+SL == "^"     \* soft line: nothing/space or a single line break (after attributes and block comments)
 
 NoDoc == <<>>
 LineDoc(s) == << [style |-> "line", text |-> s] >>
@@ -32,10 +33,12 @@ BlockDoc(s) == << [style |-> "block", text |-> s] >>
 
 -----------------------------------------------------------------------------
 (* Tokens *)
+\* a doc comment starts on a line of its own: a comment that follows a field on the
+\* same line is that field's trailing comment, not the next field's documentation
 DocTokens(doc) ==
   FlattenSeq([i \in 1..Len(doc) |->
-     IF doc[i].style = "line" THEN << "//" \o doc[i].text, NL >>
-     ELSE << "/*" \o doc[i].text \o "*/", SB >>])
+     IF doc[i].style = "line" THEN << NL, "//" \o doc[i].text, NL >>
+     ELSE << NL, "/*" \o doc[i].text \o "*/", SL >>])
 
 RECURSIVE TypeTokens(_, _)
 TypeTokens(t, asp) ==
@@ -47,8 +50,8 @@ TypeTokens(t, asp) ==
 
 Quote(s) == "\"" \o s \o "\""
 DepTokens(dep) == IF dep = "" THEN <<>>
-                  ELSE << "[", "deprecated", "(", Quote(dep), ")", "]", SB >>
-TagTokens(tags) == FlattenSeq([i \in 1..Len(tags) |-> << "//[tag(" \o tags[i].text \o ")]", NL >>])
+                  ELSE << "[", "deprecated", "(", Quote(dep), ")", "]", SL >>
+TagTokens(tags) == FlattenSeq([i \in 1..Len(tags) |-> << NL, "//[tag(" \o tags[i].text \o ")]", NL >>])
 TrailTokens(f) == IF f.trail = "" THEN <<>> ELSE << "//" \o f.trail, NL >>
 
 FieldTokens(f, isMsg, asp) ==
@@ -56,7 +59,7 @@ FieldTokens(f, isMsg, asp) ==
   \o (IF isMsg THEN << ToString(f.idx), "->" >> ELSE <<>>)
   \o TypeTokens(f.t, asp) \o << f.name, ";" >> \o TrailTokens(f)
 
-OpTokens(op) == IF op = "" THEN <<>> ELSE << "[", "opcode", "(", op, ")", "]", SB >>
+OpTokens(op) == IF op = "" THEN <<>> ELSE << "[", "opcode", "(", op, ")", "]", SL >>
 
 RECURSIVE DefTokens(_)
 DefTokens(d) ==
@@ -70,7 +73,7 @@ DefTokens(d) ==
          << "union", d.name, "{" >>
          \o FlattenSeq([i \in 1..Len(d.branches) |->
                << SB >> \o DocTokens(d.branches[i].doc) \o DepTokens(d.branches[i].dep)
-               \o << ToString(d.branches[i].idx), "->" >> \o DefTokens(d.branches[i].def)])
+               \o << ToString(d.branches[i].idx), "->" >> \o DefTokens(d.branches[i].def) \o << NL >>])
          \o << SB, "}" >>
     [] d.k = "enum" ->
          << "enum", d.name >> \o (IF d.base = "" THEN <<>> ELSE << ":", d.base >>) \o << "{" >>
@@ -84,7 +87,7 @@ DefTokens(d) ==
 ItemTokens(d) ==
   << SB >> \o (IF d.k = "import" THEN <<>> ELSE DocTokens(d.doc))
   \o (IF d.k \in {"struct", "message", "union"} THEN OpTokens(d.op) ELSE <<>>)
-  \o (IF d.k = "enum" /\ d.flags THEN << "[", "flags", "]", SB >> ELSE <<>>)
+  \o (IF d.k = "enum" /\ d.flags THEN << "[", "flags", "]", SL >> ELSE <<>>)
   \o DefTokens(d) \o << NL >>
 
 Tokens(items) == FlattenSeq([i \in 1..Len(items) |-> ItemTokens(items[i])])
@@ -104,8 +107,16 @@ FieldOf(f) == [name |-> f.name, t |-> f.t, idx |-> f.idx, dep |-> f.dep # "", de
 
 SortByIdx(s) == SortSeq(s, LAMBDA a, b : a.idx < b.idx)
 
-RECURSIVE DefOf(_)
-DefOf(d) ==
+\* AS-IS (deviation "union_branch_doc_eaten"): after a union branch the pinned parser treats
+\* the comments that follow - all block comments, then one line comment - as end-of-line
+\* comments of that branch, even when they stand on lines of their own before the next branch
+RECURSIVE DropBlocks(_)
+DropBlocks(doc) == IF doc # <<>> /\ doc[1].style = "block" THEN DropBlocks(Tail(doc)) ELSE doc
+EatenDoc(doc) == LET r == DropBlocks(doc) IN IF r # <<>> /\ r[1].style = "line" THEN Tail(r) ELSE r
+
+RECURSIVE DefOfX(_, _)
+DefOf(d) == DefOfX(d, FALSE)
+DefOfX(d, asis) ==
   CASE d.k = "struct" -> [kind |-> "struct", name |-> d.name, ro |-> d.ro, opcode |-> d.opval, doc |-> JoinDoc(d.doc),
                           fields |-> [i \in 1..Len(d.fields) |-> FieldOf(d.fields[i])]]
     [] d.k = "message" -> [kind |-> "message", name |-> d.name, opcode |-> d.opval, doc |-> JoinDoc(d.doc),
@@ -113,7 +124,8 @@ DefOf(d) ==
     [] d.k = "union" -> [kind |-> "union", name |-> d.name, opcode |-> d.opval, doc |-> JoinDoc(d.doc),
                          branches |-> SortByIdx([i \in 1..Len(d.branches) |->
                             [idx |-> d.branches[i].idx, dep |-> d.branches[i].dep # "", depmsg |-> d.branches[i].dep,
-                             def |-> DefOf([d.branches[i].def EXCEPT !.doc = d.branches[i].doc])]])]
+                             def |-> DefOfX([d.branches[i].def EXCEPT !.doc = IF asis /\ i > 1 THEN EatenDoc(d.branches[i].doc)
+                                                                                 ELSE d.branches[i].doc], asis)]])]
     [] d.k = "enum" -> [kind |-> "enum", name |-> d.name, base |-> IF d.base = "" THEN "uint32" ELSE d.base,
                         unsigned |-> d.base \notin {"int16", "int32", "int64"}, doc |-> JoinDoc(d.doc),
                         options |-> [i \in 1..Len(d.members) |->
@@ -121,12 +133,13 @@ DefOf(d) ==
                              depmsg |-> d.members[i].dep, doc |-> JoinDoc(d.members[i].doc)]]]
     [] d.k = "const" -> [kind |-> "const", t |-> d.t, name |-> d.name, value |-> d.lit, doc |-> JoinDoc(d.doc)]
 
-Sel(items, kind) == LET s == SelectSeq(items, LAMBDA d : d.k = kind) IN [i \in 1..Len(s) |-> DefOf(s[i])]
+Sel(items, kind, asis) == LET s == SelectSeq(items, LAMBDA d : d.k = kind) IN [i \in 1..Len(s) |-> DefOfX(s[i], asis)]
 
-FileOf(items) ==
+FileOfX(items, asis) ==
   [imports |-> LET s == SelectSeq(items, LAMBDA d : d.k = "import") IN [i \in 1..Len(s) |-> s[i].path],
-   consts |-> Sel(items, "const"), enums |-> Sel(items, "enum"), structs |-> Sel(items, "struct"),
-   messages |-> Sel(items, "message"), unions |-> Sel(items, "union")]
+   consts |-> Sel(items, "const", asis), enums |-> Sel(items, "enum", asis), structs |-> Sel(items, "struct", asis),
+   messages |-> Sel(items, "message", asis), unions |-> Sel(items, "union", asis)]
+FileOf(items) == FileOfX(items, FALSE)
 
 \* the same meaning with every comment erased (what formatting must preserve, C16)
 RECURSIVE StripDef(_)
